@@ -8,6 +8,7 @@ package main
 
 import (
 	"bytes"
+	"context"
 	"flag"
 	"fmt"
 	"io"
@@ -595,6 +596,62 @@ func c16Pair(concurrentDial bool, closer string, pb int) vx.Scenario {
 		}}
 }
 
+// c16Refused: websocket handshakes for the bridge path that the backend refuses (an offered extension, an
+// old protocol version) or that pass, next to one ordinary bridged connection: a refused handshake must
+// not leave a connection to the TCP server behind.
+func c16Refused(kind string) vx.Scenario {
+	return vx.Scenario{Name: "c16/refused-handshake/" + kind, PB: 1, Delay: true, MaxSteps: 50000, MaxTime: time.Minute,
+		Setup: func(s *vs.Sched) func(*vs.Result) vx.Exec {
+			w := setup(s, true)
+			accepted := 0
+			var conns []net.Conn
+			s.DaemonThread("server-accept", func() {
+				for {
+					c, err := w.serverL.Accept()
+					if err != nil {
+						return
+					}
+					vs.Touch(unsafe.Pointer(w))
+					accepted++
+					conns = append(conns, c)
+				}
+			})
+			serverOpenAtEnd := -1
+			s.Thread("driver", func() {
+				h := w.ws.Handlers["bridge.test:9000"]
+				extra := http.Header{}
+				switch kind {
+				case "extension-offered":
+					extra["Sec-Websocket-Extensions"] = []string{"permessage-deflate; client_max_window_bits"}
+				case "old-version":
+					extra["Sec-Websocket-Version"] = []string{"8"}
+				}
+				for i := 0; i < 2; i++ {
+					req, _ := vws.Handshake(context.Background(), "ws://bridge.test:9000"+connection.StreamingPath, extra)
+					h.ServeHTTP(vws.NullResponseWriter(), req)
+					vs.Quiesce()
+				}
+				// looked at now: the tear-down of the execution closes everything
+				open := 0
+				for _, c := range w.net.Conns {
+					if !c.Closed() && strings.HasSuffix(c.Name, "->localhost:7000") {
+						open++
+					}
+				}
+				serverOpenAtEnd = open
+			})
+			return func(r *vs.Result) vx.Exec {
+				var x vx.Exec
+				base(r, &x)
+				x.Obs = fmt.Sprintf("%s: server accepted %d, bridge still holds %d", kind, accepted, serverOpenAtEnd)
+				if serverOpenAtEnd > 0 {
+					x.Violations = append(x.Violations, fmt.Sprintf("ORPHANED: after two refused handshakes (%s) the bridge still holds %d connections to the TCP server, which nobody is bridged to", kind, serverOpenAtEnd))
+				}
+				return x
+			}
+		}}
+}
+
 // openBridgeConns counts connection ends the bridge itself opened and has not closed.
 func openBridgeConns(w *world) int {
 	n := 0
@@ -692,6 +749,7 @@ func c16Scenarios(th bool) []vx.Scenario {
 	for _, h := range [][]string{{"T", "s:10", "S", "c:10", "c:10"}, {"c:10", "T", "s:10", "c:10"}, {"T", "c:40000", "s:10"}, {"s:10", "T", "C", "s:10", "s:10"}} {
 		out = append(out, c16Scenario(h, true, 0))
 	}
+	out = append(out, c16Refused("extension-offered"), c16Refused("old-version"))
 	// two connections at once
 	for _, cd := range []bool{false, true} {
 		for _, cl := range []string{"client", "server"} {
